@@ -22,11 +22,49 @@ CONFIG = {
             "the reference encoder in harness/ref was written from the protocol layout and shares no code with golib",
         ],
     },
+    "C02": {
+        "level": "exploration",
+        "rule": "C02: rapid-generated tagged values (all 20 type codes, nested, wide, deep) encoded by golib and by an independent reference encoder, decoded by both, re-encoded; mutated encodings and (thorough) native fuzzing compare golib's decoder with the reference decoder.",
+        "groups": [G("c02", shards={"quick": 4, "thorough": 16}, timeout={"quick": 300, "thorough": 1800})],
+        "fuzz": [{"pkg": "c02", "name": "FuzzReadValue", "seconds": 180}],
+        "ulimit_v_kb": 8 * 1024 * 1024,
+        "assumptions": [
+            "arrays have at most 32767 elements (16-bit count field); map keys are distinct",
+            "nil and empty byte strings / arrays are the same value on the wire",
+            "inputs the reference decoder rejects are not constrained by this property (C04 covers them)",
+            "the reference codec in harness/ref shares no code with golib",
+        ],
+    },
+    "C03": {
+        "level": "exploration",
+        "rule": "C03: every pack type (24 registered through the factory + 13 with their own Write/Read) built by constructor + reflective fill of every field + fix-ups for documented preconditions, serialized, deserialized and re-serialized.",
+        "groups": [G("c03", shards={"quick": 4, "thorough": 16}, timeout={"quick": 300, "thorough": 2400})],
+        "assumptions": [
+            "byte-counted sections hold at most 255 entries, arrays at most 32767 elements, Int3 fields are within 24 bits",
+            "SMBasePack: the Cpu/Memory implementation matches OS the way Read dispatches (Linux/OSX/AIX/HPUX -> Linux structs, Windows -> Windows structs)",
+            "ProfilePack.Transaction, SMLogEvent.Keyword/LogRule, LogSinkPack.Tags are non-nil (the writers dereference them)",
+            "EventPack user attributes are strings and do not use the four reserved keys; at most 251 of them",
+            "HitMapPack1 arrays have 120 entries of 0..65535",
+            "fields no writer emits are not compared: EventPack.Eid, ServerInfoPack.Host and header, CounterPack1.ActiveStatKeys/CollectIntervalMs, TxMeter.Acts, DiskPerf.Count/NetPerf.Count (constant 1), StatTransactionPack*.Version, StatGeneralPack.DataStartTime for type 0x0910, TransactionRec.Profiled and the fields beyond the record's layout version",
+            "TxRecord: optional groups are compared only when their presence condition held; ErrorLevel 0 with Error != 0 decodes as WARNING (documented default)",
+            "open known findings F13 and F38 are excluded by construction (see known_findings.json)",
+        ],
+    },
 }
 
 NOT_APPLICABLE = {}
 
 MANIFEST_TEXT = {
+    "C02": {
+        "technique": "property-based testing: generated values vs independent reference codec (encode, decode, re-encode); differential decoding of mutated encodings; native coverage-guided fuzzing of ReadValue against the reference decoder",
+        "level_text": "Generated-input exploration of the value model: recursive values over all 20 type codes with boundary scalars, containers past table growth, deep nesting (to 20000 levels in the thorough tier); every case is checked byte for byte against an independent encoder, decoded by golib and by the reference decoder, and re-encoded. Decoder agreement on mutated and fuzzed bytes guards against writer and reader being wrong consistently.",
+        "level_note": "Trusts the reference value codec in harness/ref and the public getters used to walk golib values; depth is bounded by budget, not by the format.",
+    },
+    "C03": {
+        "technique": "property-based testing: reflective fill of every field of every pack type from a generated choice stream; round-trip, exact-consumption, byte-identical re-encoding and reference-header oracles; container packs compared with what was put in",
+        "level_text": "Generated-input exploration: for each of the 37 pack type entries thousands of field assignments (all header forms, optional sections present/absent, record lists, nested containers, compression on both sides of the threshold) are serialized and deserialized; the decoded pack must equal the original field by field (canonical form, bit-exact floats), consume exactly its bytes, re-encode identically. New fields are covered automatically by the reflective fill.",
+        "level_note": "The list of fields the wire format does not carry is hand-written (printed in evidence assumptions); a field wrongly listed there would not be compared. Trusts reflection/unsafe access to unexported fields.",
+    },
     "C01": {
         "technique": "property-based testing: generated write programs vs independent reference encoder + read-back; exhaustive sweeps of 16/24/32-bit patterns",
         "level_text": "Generated-input exploration: thousands (quick) to hundreds of thousands (thorough) of typed write programs compared byte for byte with an independent reference encoder and read back; every 16-, 24- and (thorough) 32-bit pattern is enumerated through the fixed-width helpers. Exhaustive for the fixed-width helpers, sampled for program space; it cannot prove absence of a defect that needs a specific long program.",
